@@ -30,6 +30,10 @@ func checkParser(c *checkCtx, prop string) {
 		"the sugared grammar's documented meaning is connected to the plain productions by Gen/NormalizeModel.normalize (normalize_sound / normalize_complete), compared with the dumped production list of every generated grammar",
 	}
 	c.coqObligations()
+	if prop == "C01" {
+		// internal/codegen/table.go is among C01's anchors: the row-sharing encoder against its proved model
+		checkTableEncoder(c, 200)
+	}
 
 	bounds := prop == "C16"
 	recovery := prop == "C09"
